@@ -247,6 +247,25 @@ def build_ops(name):
     def op_selfhash():
         return hash(self_spec)
 
+    # an operation that *fails* (key-set mismatch between dict nodes whose keys have a Python-level __lt__) while
+    # another thread reads the argument treespec: the error path must not touch shared treespec data
+    mis_tree = [L[0], FN([L[1], (L[2], FN([L[3]], FM(1)))], FM(2)), {FK(3): L[4], FK(2): L[5], FK(5): L[6]}]
+    mis_spec = optree.tree_structure(mis_tree, namespace=NS)
+    mis_twin = optree.tree_structure([L[0], FN([L[1], (L[2], FN([L[3]], FM(1)))], FM(2)), {FK(3): L[4], FK(2): L[5], FK(5): L[6]}], namespace=NS)
+    own_tree = [L[0], FN([L[1], (L[2], FN([L[3]], FM(1)))], FM(2)), {FK(2): L[4], FK(1): L[5], FK(4): L[6]}]
+    own_spec = optree.tree_structure(own_tree, namespace=NS)
+
+    def op_failing_broadcast():
+        try:
+            own_spec.broadcast_to_common_suffix(mis_spec)
+            return 'accepted'
+        except ValueError:
+            return 'ValueError'
+
+    def op_read_argument():
+        return (repr(mis_spec).count('FK('), mis_spec == mis_twin, hash(mis_spec) == hash(mis_twin),
+                [x.n for x in optree.tree_leaves(mis_spec.unflatten(list(L[:7])), namespace=NS)], len(mis_spec.paths()))
+
     def op_broadcast():
         a, b = optree.tree_broadcast_common(tree, tree, namespace=NS)
         return len(optree.tree_leaves(a, namespace=NS))
@@ -474,6 +493,8 @@ def build_ops(name):
         'flatten|map|reg_plain': {'A': op_flatten, 'B': op_map, 'C': op_reg_plain},
         'iter|unflatten|reg_nt': {'A': op_iter, 'B': op_unflatten, 'C': op_reg_nt},
         'eq|hash|repr': {'A': op_eq, 'B': op_hash, 'C': op_repr},
+        'failing_broadcast|read_argument': {'A': op_failing_broadcast, 'B': op_read_argument},
+        'failing_broadcast|read_argument|failing_broadcast': {'A': op_failing_broadcast, 'B': op_read_argument, 'C': op_failing_broadcast},
         'selfrepr|selfrepr': {'A': op_selfrepr, 'B': op_selfrepr},
         'selfhash|selfhash': {'A': op_selfhash, 'B': op_selfhash},
         'selfrepr|selfhash|selfrepr': {'A': op_selfrepr, 'B': op_selfhash, 'C': op_selfrepr},
@@ -499,7 +520,8 @@ def _solo(f):
 TUPLES = ['flatten|map', 'flatten|reg_nt', 'map|reg_nt', 'flatten2|reg_nt', 'inspect|reg_nt', 'unflatten|reg_meta',
           'flatten2|reg_meta', 'reg_nt|reg_nt', 'reg_nt|reg_meta', 'eq|hash', 'eq|eq', 'hash|hash', 'repr|repr', 'repr|pickle',
           'hash|repr', 'iter|with_path', 'unflatten|flatten', 'broadcast|inspect', 'flatten|map|reg_plain', 'iter|unflatten|reg_nt',
-          'eq|hash|repr', 'first_classification_of_a_namedtuple_class', 'selfrepr|selfrepr', 'selfhash|selfhash', 'selfrepr|selfhash|selfrepr', 'shared_iter', 'same_registration', 'registry_change_of_flattened_type',
+          'eq|hash|repr', 'failing_broadcast|read_argument', 'failing_broadcast|read_argument|failing_broadcast',
+          'first_classification_of_a_namedtuple_class', 'selfrepr|selfrepr', 'selfhash|selfhash', 'selfrepr|selfhash|selfrepr', 'shared_iter', 'same_registration', 'registry_change_of_flattened_type',
           'register|unregister_same_type']
 
 
